@@ -586,6 +586,53 @@ theorem option_spellings (n n' v : Str) (c : Char) (o : Opt) (rest : List Str)
     short_two_args c o v rest hc hk hv, short_equals c o v rest hc hk, short_attached c o v rest hc hk hv0 hv1,
     and_self]
 
+/-- arguments that are one token each are tokenised one by one, whatever follows them -/
+theorem lexAll_append_oneToken (l rest : List Str) (h : OneTokenEach l) :
+    lexAll (l ++ rest) = l.map lex ++ lexAll rest := by
+  induction l with
+  | nil => rfl
+  | cons s l' ih =>
+    have hrest : OneTokenEach l' := fun x hx => h x (List.mem_cons_of_mem _ hx)
+    have hs := h s List.mem_cons_self
+    unfold oneToken at hs
+    simp only [Bool.and_eq_true, Option.isNone_iff_eq_none] at hs
+    rw [List.cons_append, lexAll_cons, hs.1, List.map_cons, List.cons_append, ← ih hrest]
+    cases hl : lex s with
+    | file n => rfl
+    | other => rfl
+    | opt o v =>
+      cases v with
+      | some x => rfl
+      | none =>
+        have hk : o.kind = .flag := by
+          have := hs.2
+          rw [hl] at this
+          simpa using this
+        cases hh : (l' ++ rest).head? with
+        | none => simp only
+        | some v => simp only [hk, ne_eq, not_true_eq_false, false_and, if_false]
+
+/-- 4a'. an option written in TWO arguments (`--name value`) moves as a pair: swapping the pair with a neighbouring
+one-token argument of another family changes nothing -/
+theorem swap_adjacent_two_args (l₁ l₂ : List Str) (n v s₂ : Str) (o : Opt)
+    (hn : findOpt n = some o) (hp : plainName n = true) (hk : o.kind ≠ .flag) (hv : isValue v = true)
+    (h₁ : OneTokenEach l₁) (h₂ : OneTokenEach (s₂ :: l₂)) (hf : sameFamily (.opt o (some v)) (lex s₂) = false) :
+    parseArgs (l₁ ++ ('-' :: '-' :: n) :: v :: s₂ :: l₂) = parseArgs (l₁ ++ s₂ :: ('-' :: '-' :: n) :: v :: l₂) := by
+  apply parseArgs_order_independent
+  have h2' : OneTokenEach l₂ := fun x hx => h₂ x (List.mem_cons_of_mem _ hx)
+  have hs2 : OneTokenEach [s₂] := fun x hx => h₂ x (by simp only [List.mem_singleton] at hx; subst hx; exact List.mem_cons_self)
+  have e1 : lexAll (l₁ ++ ('-' :: '-' :: n) :: v :: s₂ :: l₂) =
+      l₁.map lex ++ .opt o (some v) :: lex s₂ :: l₂.map lex := by
+    rw [lexAll_append_oneToken _ _ h₁, long_two_args n v o _ hn hp hk hv, lexAll_eq_map _ h₂, List.map_cons]
+  have e2 : lexAll (l₁ ++ s₂ :: ('-' :: '-' :: n) :: v :: l₂) =
+      l₁.map lex ++ lex s₂ :: .opt o (some v) :: l₂.map lex := by
+    rw [lexAll_append_oneToken _ _ h₁]
+    have : s₂ :: ('-' :: '-' :: n) :: v :: l₂ = [s₂] ++ (('-' :: '-' :: n) :: v :: l₂) := rfl
+    rw [this, lexAll_append_oneToken _ _ hs2, long_two_args n v o _ hn hp hk hv, lexAll_eq_map _ h2']
+    rfl
+  rw [e1, e2]
+  exact same_of_swap _ _ _ _ hf
+
 /-- non-vacuity, and the spellings on a concrete line -/
 example : parseArgs ["--choose=.a".toList, "--skip=2".toList, "--unique".toList, "f.json".toList]
     = parseArgs ["-uc".toList, ".a".toList, "-k2".toList, "f.json".toList] := by
